@@ -1137,7 +1137,10 @@ fn ip_of(g: u32, last: u8) -> String {
 }
 
 fn write_atomic(path: &Path, content: &str) {
-    let tmp = path.with_extension("tmp-write");
+    // the temporary file lives outside the -Z/-A directories, so a reload running during an edit never lists it
+    let parent = path.parent().unwrap();
+    let root = if parent.extension().is_some_and(|e| e == "d") { parent.parent().unwrap() } else { parent };
+    let tmp = root.join(".tmp-write");
     std::fs::write(&tmp, content).unwrap();
     std::fs::rename(&tmp, path).unwrap();
 }
@@ -1269,6 +1272,9 @@ struct Epoch {
     possible_from: Instant,
     /// instant from which it is certainly in force (we saw "done - success")
     certain_from: Instant,
+    /// Some(h): the files were being rewritten for generation h while this configuration was read, so each file is of
+    /// generation g or h independently (the harness's doing, not the server's)
+    mix_with: Option<u32>,
 }
 
 #[allow(clippy::too_many_lines)]
@@ -1281,14 +1287,15 @@ fn c19(args: Args) {
          name that exists only in the same generation of another file, so a mixed read shows inside a single answer. Steps: \
          rewrite all files for the next generation (temp + rename, only while no reload runs), or additionally break the \
          configuration (syntactically bad file in the directory, dangling symlink, explicitly listed file removed), then 1..3 \
-         SIGUSR1 in a burst; 8 client threads query seven probes throughout over UDP and TCP, logging send and receive times; \
+         SIGUSR1 in a burst; every eighth step instead edits, signals, waits for 'received', edits again (one of the two versions \
+         without the 30,000 bulk records, so the two loads differ greatly in length) and signals again; 8 client threads query seven probes throughout over UDP and TCP, logging send and receive times; \
          the server's own 'received' / 'done - success|failure' lines are time-stamped on arrival. Oracle: every answer equals \
          the answer of one generation that can have been in force at some instant between send and receive; after an observed \
          'done - success' only the new one, after 'done - failure' only the previous one; no mixed answers; no query without a \
          reply (3 transmissions); the process stays up. non-trivial = query whose flight overlapped a reload or followed one; \
          distinct = distinct (probe, generation seen, reload index).",
     );
-    run.assume("edits are made only between reloads (temp file + rename), so the server never reads a half-written file");
+    run.assume("every file is replaced by temp file + rename (the temp file outside the listed directories), so the server never reads a half-written file; edits are made between reloads, except in the edit-while-reloading steps, where the load that overlaps the edit may see each file in either generation and only the state after the last reload is judged strictly");
     run.assume("times are taken in the harness: a log line is seen no earlier than it was written, a reply no earlier than it was sent — both errors widen the set of acceptable generations, never narrow it");
     let seed = args.seed;
     let steps = args.size(25, 1500) as usize;
@@ -1328,6 +1335,7 @@ fn c19(args: Args) {
         has_extra: false,
         possible_from: start,
         certain_from: start,
+        mix_with: None,
     }]));
     let stop = Arc::new(AtomicBool::new(false));
     let logs: Arc<Mutex<Vec<QueryLog>>> = Arc::new(Mutex::new(Vec::new()));
@@ -1431,6 +1439,59 @@ fn c19(args: Args) {
         if !server.alive() {
             break;
         }
+        // 0. every eighth step: edit again while the reload is still running, then signal again.  The first load may see
+        //    each file in either generation; once the last reload has reported, only the second edit may be visible.
+        //    One of the two loads is made much shorter than the other (no bulk records), so that an implementation
+        //    which lets loads overlap finishes them out of order.
+        if broken.is_none() && step % 8 == 3 {
+            let (g1, g2) = (g + 1, g + 2);
+            let first_big = rng.chance(3, 4);
+            write_generation(&dir, g1, has_extra, if first_big { &bulk } else { "" });
+            let from_line = server.lines.lock().unwrap().len();
+            let signal1 = Instant::now();
+            server.sigusr1();
+            let t0 = Instant::now();
+            while !server.lines.lock().unwrap()[from_line..].iter().any(|(_, l)| l.contains("received")) && t0.elapsed() < Duration::from_secs(30) {
+                std::thread::sleep(Duration::from_millis(1));
+            }
+            std::thread::sleep(Duration::from_millis(rng.range(0, 20) as u64));
+            write_generation(&dir, g2, has_extra, if first_big { "" } else { &bulk });
+            let signal2 = Instant::now();
+            server.sigusr1();
+            let done = wait_done(&server, from_line, 2, Duration::from_secs(60));
+            sh.eval();
+            sh.count("reload:edit-while-reloading", 1);
+            sh.count("signals-sent", 2);
+            sh.count("reloads-reported", done.len() as u64);
+            if done.len() < 2 {
+                sh.violation(
+                    "C19:reload-never-reported",
+                    format!("a SIGUSR1 sent after the previous one was reported as received did not lead to a second 'done' line within 60 s (step {step})"),
+                    json!({"kind": "reload", "step": step, "action": "edit-while-reloading", "stderr": truncate(&server.stderr.lock().unwrap(), 500)}),
+                );
+                break;
+            }
+            for (_, ok) in &done {
+                if !*ok {
+                    sh.violation(
+                        "C19:valid-configuration-failed-to-load".to_string(),
+                        format!("step {step}: action edit-while-reloading, server reported failure"),
+                        json!({"kind": "reload", "step": step, "action": "edit-while-reloading"}),
+                    );
+                }
+            }
+            let last_done = done.iter().map(|d| d.0).max().unwrap();
+            {
+                let mut ep = epochs.lock().unwrap();
+                ep.push(Epoch { g: g1, has_extra, possible_from: signal1, certain_from: done[0].0, mix_with: Some(g2) });
+                ep.push(Epoch { g: g2, has_extra, possible_from: signal2, certain_from: last_done, mix_with: None });
+            }
+            g = g2;
+            reload_records.push(json!({"step": step, "action": "edit-while-reloading", "signals": 2, "reloads_reported": done.len(), "first_load_is_the_long_one": first_big,
+                "took_ms": last_done.duration_since(signal1).as_millis() as u64, "success_expected": true}));
+            std::thread::sleep(Duration::from_millis(rng.range(20, 80) as u64));
+            continue;
+        }
         // 1. edit (no reload is in progress now)
         let action = match (broken, rng.below(10)) {
             (Some(_), _) => "repair-and-advance",
@@ -1532,6 +1593,7 @@ fn c19(args: Args) {
                 has_extra,
                 possible_from: signal_at,
                 certain_from: first_done,
+                mix_with: None,
             });
         } else if action == "explicit-file-removed" {
             // files on disk moved on, the configuration in force must not
@@ -1588,9 +1650,11 @@ fn c19(args: Args) {
             after_reload += 1;
         }
         let ok = match &ql.seen {
-            Seen::Gen(x) => allowed.iter().any(|e| e.g == *x && (ql.probe != 6 || e.has_extra)),
+            Seen::Gen(x) => allowed.iter().any(|e| (e.g == *x || e.mix_with == Some(*x)) && (ql.probe != 6 || e.has_extra)),
             Seen::Absent => allowed.iter().any(|e| !e.has_extra),
-            Seen::Mixed(_) | Seen::Other(_) => false,
+            // files of two generations on disk while the configuration was read: the harness's own mixture
+            Seen::Mixed(_) => allowed.iter().any(|e| e.mix_with.is_some()),
+            Seen::Other(_) => false,
         };
         if allowed.len() > 1 || after_reload > 0 {
             // distinct = (probe, generation seen, candidate generations, 5 ms slot of the send time, transport)
